@@ -89,13 +89,20 @@ Definition model_op (ms : list metric) (pis : list pinfo) (frozen : list N) (s :
   let st' := of_list after in
   match d with
   | XRemove caller target failc out =>
-      let ro := mk_ror (mk_env 0 ms [] []) (ord_of st') (lord_from (pins_of es)) failc in
+      (* the monitor answers with the metrics of the current peerset only (metrics.PeersetFilter) *)
+      let ms' := filter (fun m => memN (mpeer m) (cfg_peers s)) ms in
+      let ro := mk_ror (mk_env 0 ms' [] []) (ord_of st') (lord_from (pins_of es)) failc in
       (try_outs s (fun os => EvPeerRemove caller target ro os) out err peers_after, frozen)
   | XAdd caller target out id_ok => (try_outs s (fun os => EvPeerAdd caller target os id_ok) out err peers_after, frozen)
   | XShutdown p out => (try_outs s (fun os => EvShutdown p os (psnap pis p)) out err peers_after, frozen)
   | XFreeze p => (Some (fst (clstep s (EvDeliver 1000000))), p :: frozen)
   | XThaw p => (Some (fst (clstep s (EvDeliver 1000000))), filter (fun q => negb (q =? p)) frozen)
-  | XRestart p rdy => (Some (fst (clstep s (EvRestart p rdy))), frozen)
+  | XRestart p rdy =>
+      (* the harness reports a restart that could not take place (already running, or no data folder left) as an error *)
+      let eff := match aget p (cs_peers s) with
+                 | Some q => negb (cp_running q) && (match live (cp_dir q) with Some _ => true | None => false end)
+                 | None => false end in
+      (if Bool.eqb err (negb eff) then Some (fst (clstep s (EvRestart p rdy))) else None, frozen)
   | XJoin p via out => (try_outs s (fun os => EvJoin p via 0 os) out err peers_after, frozen)
   | XCall caller =>
       (Some (mk_cstate (cs_init s) (cs_lg s) st' (cs_tr s ++ map (fun e => (cs_clock s, e)) es) (S (cs_clock s)) (cs_peers s)), frozen)
@@ -145,7 +152,8 @@ Fixpoint remove_order_ok (caller target : N) (seen_rm : bool) (es : list tev) : 
   end.
 
 Record sstate := mk_sstate {
-  ss_st : pinset; ss_peers : list N; ss_running : list N; ss_views : list (N * list N); ss_out : list N }.
+  ss_st : pinset; ss_peers : list N; ss_running : list N; ss_views : list (N * list N); ss_out : list N;
+  ss_ready : list (N * bool) (* readiness of the current incarnation of the peers that were started again *) }.
 
 Definition view_of (ss : sstate) (peers_after : list N) (q : N) : list N :=
   match aget q (ss_views ss) with Some v => v | None => peers_after end.
@@ -153,14 +161,18 @@ Definition view_of (ss : sstate) (peers_after : list N) (q : N) : list N :=
 Definition spec_op (rv : bool) (ms : list metric) (pis : list pinfo) (ss : sstate) (o : xop) : bool * sstate :=
   let '(d, err, es, after, peers_after, running_after) := o in
   let st := ss_st ss in let st' := of_list after in
-  let starts := match d with XRestart p _ | XJoin p _ _ => [p] | _ => [] end in
+  let starts := match d with XRestart p _ | XJoin p _ _ => if err then [] else [p] | _ => [] end in
+  let ready' := match d with
+                | XRestart p rdy => if err then ss_ready ss else aput p rdy (ss_ready ss)
+                | XJoin p _ _ => aput p (negb err) (ss_ready ss)
+                | _ => ss_ready ss end in
   let stops := match d with XShutdown p _ => [p] | _ => [] end in
   let views' := match d with
                 | XFreeze p => aput p (ss_peers ss) (ss_views ss)
                 | XThaw p => adel p (ss_views ss)
                 | _ => ss_views ss end in
   let ss1 := mk_sstate st' peers_after running_after views'
-                       (ss_out ss ++ filter (fun q => negb (memN q peers_after)) (map pi_idx pis)) in
+                       (ss_out ss ++ filter (fun q => negb (memN q peers_after)) (map pi_idx pis)) ready' in
   (* which peers run: a removed peer (in its own view) has stopped itself; a member has not; nobody starts by itself *)
   let run_ok :=
     forallb (fun x =>
@@ -185,7 +197,7 @@ Definition spec_op (rv : bool) (ms : list metric) (pis : list pinfo) (ss : sstat
            (let steps := [(caller, false, false, false, pins_of es, after)] in
             let eligible := active && negb idle && (match failc with [] => true | _ => false end) in
             forallb (fun c => match aget c st with Some p => is_update_pin p | None => false end)
-                    (repin_bad 0 rv ms true eligible target st st' steps))
+                    (repin_bad 0 rv (filter (fun m => memN (mpeer m) (ss_peers ss)) ms) true eligible target st st' steps))
     | XCall caller => forallb (fun e => match e with TPin _ b | TUnpin _ b => b =? caller | _ => false end) es
                       && seteqb peers_after (ss_peers ss)
     | XAdd caller target out id_ok =>
@@ -223,7 +235,8 @@ Definition final_ok (pis : list pinfo) (ops : list xop) (ss : sstate) (f : pfina
   | Some x =>
       let l0 := pi_listing x in
       let keep := pi_keep x in
-      let was_started := pi_started x || existsb (fun o => match fst (fst (fst (fst (fst o)))) with XRestart q _ | XJoin q _ _ => q =? p | _ => false end) ops in
+      let was_started := pi_started x || (match aget p (ss_ready ss) with Some _ => true | None => false end) in
+      let ready := match aget p (ss_ready ss) with Some b => b | None => pi_ready x end in
       let watcher_stopped := was_started && negb running && negb (explicit_stop ops p) in
       Bool.eqb running (memN p (ss_running ss))
       && (if running then negb removed else true)
@@ -231,7 +244,7 @@ Definition final_ok (pis : list pinfo) (ops : list xop) (ss : sstate) (f : pfina
       (* stopped by its watcher: marked removed; ready -> cleaned once, folder gone, backups rotated *)
       && (if watcher_stopped then
             removed
-            && (if pi_ready x then
+            && (if ready then
                   Nat.eqb cleans 1 && ofold_eqb (hd None l) None
                   && match hd None l0 with
                      | Some (m, sn) =>
@@ -260,7 +273,7 @@ Definition final_ok (pis : list pinfo) (ops : list xop) (ss : sstate) (f : pfina
 Definition spec_okb (x : payload) : bool :=
   let '(kind, dmin, dmax, rv, ms, init, pis, pins0, ops, finals) := x in
   let ss0 := mk_sstate (of_list pins0) init (map pi_idx (filter pi_started pis)) []
-                       (filter (fun q => negb (memN q init)) (map pi_idx pis)) in
+                       (filter (fun q => negb (memN q init)) (map pi_idx pis)) [] in
   let '(ok, ss) := spec_run rv ms pis ss0 ops in
   ok && forallb (final_ok pis ops ss) finals && Nat.eqb (length finals) (length pis).
 
